@@ -82,12 +82,13 @@ VARIABLES
   sess,        \* upload session [open, data, tok, short]
   mounted,     \* the server accepted the anonymous mount
   nPartial, nFault, nEarly, refused, minViol,
+  keptAll,     \* the server refused the single request upload but kept its whole body
   tmpFile      \* ocidir: content of the temp file, or NoFile
 
 cvars == <<putURL, rdPos, readOnce, result, retD>>
 hvars == <<req, rsp, ret, tries, boCur, boReset>>
 lvars == <<hostChunk, bufBytes, bufCap, bufStart, chunkStart, chunkSize, finalChunk, retryCur, noProgress, chunkURL, hashed>>
-svars == <<blobs, sess, mounted, nPartial, nFault, nEarly, refused, minViol>>
+svars == <<blobs, sess, mounted, nPartial, nFault, nEarly, refused, minViol, keptAll>>
 vars == <<cf, pc, cvars, hvars, lvars, svars, tmpFile>>
 
 Min2(a, b) == IF a < b THEN a ELSE b
@@ -148,7 +149,7 @@ Init ==
   /\ finalChunk = FALSE /\ retryCur = 0 /\ noProgress = 0 /\ chunkURL = NoURL /\ hashed = <<>>
   /\ blobs = IF Pre = NoFile THEN <<>> ELSE (DDig :> Pre)
   /\ sess = [open |-> FALSE, data |-> <<>>, tok |-> 0, short |-> FALSE]
-  /\ mounted = FALSE /\ nPartial = 0 /\ nFault = 0 /\ nEarly = 0 /\ refused = FALSE /\ minViol = FALSE
+  /\ mounted = FALSE /\ nPartial = 0 /\ nFault = 0 /\ nEarly = 0 /\ refused = FALSE /\ minViol = FALSE /\ keptAll = FALSE
   /\ tmpFile = NoFile
 
 Send(r, cont) == req' = r /\ ret' = cont /\ pc' = "srv" /\ UNCHANGED <<rsp, tries>>
@@ -419,8 +420,15 @@ SrvChoices ==
                     ELSE {})
     [] req.m = "PUT" ->
          IF ~(sess.open /\ TokOK(req.url)) \/ MinStop THEN {C("ok")}
-         ELSE {C("ok")} \cup (IF Len(req.body) > 0 /\ ~refused /\ cf.refuse THEN {C("refuse")} ELSE {})
+         ELSE {C("ok")}
+              \* the single request upload is refused; the session keeps the first k units of the body
+              \cup (IF Len(req.body) > 0 /\ ~refused /\ cf.refuse
+                    THEN {[a |-> "refuse", k |-> k, via |-> ""] : k \in 0..Len(req.body)} ELSE {})
               \cup Faults({"f500l", "f503l", "rstl", "f500a", "f503a", "rsta"})
+              \* the request breaks off late: a proper prefix of the body stays in the session
+              \cup (IF nFault < MaxFaults
+                    THEN {[a |-> f, k |-> k, via |-> ""] : f \in {"f500a", "f503a", "rsta"}, k \in 1..(Len(req.body) - 1)}
+                    ELSE {})
     [] req.m = "GET" -> {C("ok")} \cup (IF sess.open THEN Faults({"f500l", "f503l", "rstl"}) ELSE {})
     [] OTHER -> {C("ok")}
 
@@ -431,7 +439,7 @@ SessReply(st, s) == Reply(st, LocOf(s.tok), Len(s.data) - 1, 0)
 Commit(d, c) == (d :> c) @@ blobs
 
 ServePost(c) ==
-  /\ UNCHANGED <<nPartial, nEarly, refused, minViol>>
+  /\ UNCHANGED <<nPartial, nEarly, refused, minViol, keptAll>>
   /\ nFault' = IF IsFault(c.a) THEN nFault + 1 ELSE nFault
   /\ IF IsFault(c.a)
      THEN rsp' = Reply(FaultSt(c.a), NoURL, NoRng, 0) /\ UNCHANGED <<blobs, sess, mounted>>
@@ -444,7 +452,7 @@ ServePost(c) ==
           IN sess' = s /\ rsp' = Reply(202, LocOf(s.tok), NoRng, cf.min) /\ UNCHANGED <<blobs, mounted>>
 
 ServePatch(c) ==
-  /\ UNCHANGED <<blobs, mounted, refused>>
+  /\ UNCHANGED <<blobs, mounted, refused, keptAll>>
   /\ IF ~sess.open
      THEN rsp' = Reply(404, NoURL, NoRng, 0) /\ UNCHANGED <<sess, nPartial, nFault, nEarly, minViol>>
      ELSE IF ~InOrder                          \* stale location or out of order: 416 + current state
@@ -473,20 +481,28 @@ ServePatch(c) ==
 ServePut(c) ==
   /\ UNCHANGED <<mounted, nPartial, nEarly>>
   /\ IF ~sess.open
-     THEN rsp' = Reply(404, NoURL, NoRng, 0) /\ UNCHANGED <<blobs, sess, nFault, refused, minViol>>
+     THEN rsp' = Reply(404, NoURL, NoRng, 0) /\ UNCHANGED <<blobs, sess, nFault, refused, minViol, keptAll>>
      ELSE IF ~TokOK(req.url)
-     THEN rsp' = SessReply(416, sess) /\ UNCHANGED <<blobs, sess, nFault, refused, minViol>>
+     THEN rsp' = SessReply(416, sess) /\ UNCHANGED <<blobs, sess, nFault, refused, minViol, keptAll>>
      ELSE IF MinStop
      THEN /\ rsp' = Reply(416, NoURL, NoRng, 0) /\ sess' = [sess EXCEPT !.open = FALSE]
-          /\ minViol' = TRUE /\ UNCHANGED <<blobs, nFault, refused>>
+          /\ minViol' = TRUE /\ UNCHANGED <<blobs, nFault, refused, keptAll>>
      ELSE IF c.a = "refuse"
-     THEN rsp' = Reply(413, NoURL, NoRng, 0) /\ refused' = TRUE /\ UNCHANGED <<blobs, sess, nFault, minViol>>
+     THEN /\ rsp' = Reply(413, NoURL, NoRng, 0) /\ refused' = TRUE
+          /\ sess' = [sess EXCEPT !.data = @ \o SubSeq(req.body, 1, c.k),
+                                  !.tok = IF c.k > 0 THEN NextTok ELSE @]
+          /\ keptAll' = (keptAll \/ c.k = Len(req.body))
+          /\ UNCHANGED <<blobs, nFault, minViol>>
      ELSE IF IsFault(c.a) /\ ~Applied(c.a)
      THEN rsp' = Reply(FaultSt(c.a), NoURL, NoRng, 0) /\ nFault' = nFault + 1
-          /\ UNCHANGED <<blobs, sess, refused, minViol>>
+          /\ UNCHANGED <<blobs, sess, refused, minViol, keptAll>>
+     ELSE IF Applied(c.a) /\ c.k > 0       \* broke off after k units, nothing to commit
+     THEN /\ rsp' = Reply(FaultSt(c.a), NoURL, NoRng, 0) /\ nFault' = nFault + 1
+          /\ sess' = [sess EXCEPT !.data = @ \o SubSeq(req.body, 1, c.k), !.tok = NextTok]
+          /\ UNCHANGED <<blobs, refused, minViol, keptAll>>
      ELSE LET all == sess.data \o req.body
           IN /\ nFault' = IF Applied(c.a) THEN nFault + 1 ELSE nFault
-             /\ UNCHANGED <<refused, minViol>>
+             /\ UNCHANGED <<refused, minViol, keptAll>>
              /\ IF H(all) = req.dig
                 THEN /\ blobs' = Commit(req.dig, all)
                      /\ sess' = [sess EXCEPT !.open = FALSE]
@@ -497,14 +513,14 @@ ServePut(c) ==
                                ELSE Reply(400, NoURL, NoRng, 0)
 
 ServeGet(c) ==
-  /\ UNCHANGED <<blobs, sess, mounted, nPartial, nEarly, refused, minViol>>
+  /\ UNCHANGED <<blobs, sess, mounted, nPartial, nEarly, refused, minViol, keptAll>>
   /\ nFault' = IF IsFault(c.a) THEN nFault + 1 ELSE nFault
   /\ rsp' = IF ~sess.open THEN Reply(404, NoURL, NoRng, 0)
             ELSE IF IsFault(c.a) THEN Reply(FaultSt(c.a), NoURL, NoRng, 0)
             ELSE SessReply(204, sess)
 
 ServeDelete(c) ==
-  /\ UNCHANGED <<blobs, mounted, nPartial, nFault, nEarly, refused, minViol>>
+  /\ UNCHANGED <<blobs, mounted, nPartial, nFault, nEarly, refused, minViol, keptAll>>
   /\ IF sess.open THEN sess' = [sess EXCEPT !.open = FALSE] /\ rsp' = Reply(204, NoURL, NoRng, 0)
      ELSE UNCHANGED sess /\ rsp' = Reply(404, NoURL, NoRng, 0)
 
@@ -539,7 +555,7 @@ ORename ==
   /\ pc = "o_rename"
   /\ blobs' = Commit(retD.dig, tmpFile) /\ tmpFile' = NoFile
   /\ result' = "ok" /\ pc' = "done"
-  /\ UNCHANGED <<cf, putURL, rdPos, readOnce, retD, hvars, lvars, sess, mounted, nPartial, nFault, nEarly, refused, minViol>>
+  /\ UNCHANGED <<cf, putURL, rdPos, readOnce, retD, hvars, lvars, sess, mounted, nPartial, nFault, nEarly, refused, minViol, keptAll>>
 
 Client == \/ Start \/ Mount \/ MountR \/ Post \/ PostR \/ TryPut \/ Full \/ FullBody \/ FullR \/ FullFail
           \/ ChInit \/ Loop \/ Fill \/ Slice \/ PatchSend \/ PatchR \/ StatusR \/ Verify \/ FinalR
@@ -567,7 +583,11 @@ O1 == MountShortcut \/ O1Strict
 O2 == MountShortcut \/ IgnoredDigest \/ O2Strict
 \* O3: conforming destination, no transient fault, well formed input => success.  Not demanded
 \* when the single PUT was refused and the source cannot be rewound (impossible for any client)
-O3 == (Done /\ WellFormed /\ nFault = 0 /\ (cf.seek \/ ~refused) /\ ~minViol) => result = "ok"
+O3Strict == (Done /\ WellFormed /\ nFault = 0 /\ (cf.seek \/ ~refused) /\ ~minViol) => result = "ok"
+\* as found (finding C05-3): when the refused single request left the WHOLE blob in the session and
+\* the last buffer is a short one, the chunk loop reads to the end and then trips over its own
+\* "chunkStart != bufStart" check instead of going on to the closing PUT
+O3 == keptAll \/ O3Strict
 \* S13: with the re-slice the chunks after a partial acceptance are smaller than requested; a
 \* destination that enforces its minimum would refuse them
 NoMinViolation == ~minViol
